@@ -56,7 +56,7 @@ func init() {
 		assumptions: []string{"default waiting semantics"},
 	})
 	register("C01", &propDef{
-		patterns: []string{"./embedded/store", "./embedded/ahtree", "./embedded/htree", "./pkg/api/schema", "./pkg/client/...", "./pkg/verification"},
+		patterns: []string{"./embedded/store", "./embedded/ahtree", "./embedded/htree", "./pkg/api/schema", "./pkg/client/...", "./pkg/verification", "./pkg/server"},
 		run:      c01,
 		explanation: "Decides structural necessary conditions of proof SOUNDNESS: every TxHeader / entry field flows into the hash that authenticates it; in the verifiers every parameter is used, every accepting path crosses each required comparison and each sub-verifier's verified edge (with the documented guards as the only alternatives), sub-verifiers are applied to header-derived arguments, VerifyLinearAdvanceProof accepts unconditionally only for adjacent txs and extends the chain only after a verified inclusion; on the client, the trusted state advances only after verifyDualProof (anchored in the trusted hash), signature check and a content-binding site, and the stored hash is the proven one; proto conversions carry every field. It does NOT decide completeness of proof generation nor the arithmetic of the Merkle verifiers.",
 		assumptions: []string{"sha256 collision resistance", "ahtree verifiers are correct for the positions they are given (C08 decides their guards)"},
